@@ -101,6 +101,20 @@ def load_calibrator_state(checkpoint_path: PathLike, _code_state_version: int) -
     )
 
 
+def load_samplers_id_table(checkpoint_path: PathLike) -> dict[str, int] | None:
+    """Load the samplers-by-id table stored with a checkpoint.
+
+    Args:
+        checkpoint_path: the folder where the data are stored
+
+    Returns:
+        the map from sampler names to ids, or None if the checkpoint does not contain it
+    """
+    with (Path(checkpoint_path) / "calibration_params.json").open() as f:
+        cp = json.load(f)
+    return cp.get("samplers_id_table")
+
+
 def save_calibrator_state(  # noqa: PLR0913
     checkpoint_path: PathLike,
     parameters_bounds: NDArray[np.float64],
@@ -125,6 +139,7 @@ def save_calibrator_state(  # noqa: PLR0913
     series_samp: NDArray[np.float64],
     batch_num_samp: NDArray[np.int64],
     method_samp: NDArray[np.int64],
+    samplers_id_table: Mapping[str, int] | None = None,
 ) -> None:
     """Store the state of the calibrator in a given folder.
 
@@ -152,6 +167,7 @@ def save_calibrator_state(  # noqa: PLR0913
         series_samp: the sampled series
         batch_num_samp: the sampling batch number
         method_samp: the sampling method
+        samplers_id_table: the map from sampler names to the ids stored in 'method_samp'
     """
     checkpoint_path = Path(checkpoint_path)
     # create directory if needed
@@ -175,6 +191,8 @@ def save_calibrator_state(  # noqa: PLR0913
         "n_sampled_params": n_sampled_params,
         "n_jobs": n_jobs,
     }
+    if samplers_id_table is not None:
+        calibration_params["samplers_id_table"] = dict(samplers_id_table)
     # save calibration parameters in a json dictionary
     with (checkpoint_path / "calibration_params.json").open("w") as f:
         json.dump(calibration_params, f, cls=NumpyArrayEncoder)
